@@ -55,6 +55,12 @@ func init() {
 					return "release " + show()
 				}
 				return "wait " + show()
+			case "tryreal":
+				b.At(secToNs(str(in, "t")))
+				if b.TryReal() {
+					return "release " + show()
+				}
+				return "wait " + show()
 			case "fail":
 				b.At(secToNs(str(in, "t")))
 				b.Fail(num(in, "code", 0))
